@@ -6,6 +6,7 @@
 //   data <k> | set <k> <field> v... | num <k> <field> | numm <field> | setm <field> v... | scalar <k> <name>
 //   forward <k> | step <k> [n] | resetdata <k>
 //   contactsfull <k>   -> "ncon: g1 g2 dim exclude dist includemargin pos(3) frame(9) efc_address | ..."   (%.17g)
+//   efcnz <k>          -> "nefc: b b b ..."  b = 1 iff the row's Jacobian has a non-zero entry (dense or sparse storage)
 //   kbip <rs> <ts> <sr0> <sr1> <d0> <d1> <width> <mid> <power> <pos>     (16-hex-digit IEEE tokens; rs = 1: REFSAFE active, 0: disabled)
 //                    requires a model whose first equality is a single-joint `joint` equality on the only (scalar) joint: writes
 //                    eq_solref/eq_solimp of equality 0, opt.timestep, the REFSAFE bit and qpos[0], runs mj_forward (the real
@@ -80,6 +81,17 @@ int main(void) {
         else mj_resetData(m, d);
       }
       printf("ok\n");
+    } else if (!strcmp(op, "efcnz") && n == 2) {
+      mjData* d = SLOT(atoi(tok[1]));
+      if (!d) { printf("bad-op\n"); fflush(stdout); continue; }
+      printf("%d:", d->nefc);
+      for (int i = 0; i < d->nefc; i++) {
+        int nz = 0;
+        if (mj_isSparse(m)) { for (int j = 0; j < d->efc_J_rownnz[i]; j++) if (d->efc_J[d->efc_J_rowadr[i] + j] != 0) nz = 1; }
+        else { for (int j = 0; j < m->nv; j++) if (d->efc_J[(size_t)i * m->nv + j] != 0) nz = 1; }
+        printf(" %d", nz);
+      }
+      printf("\n");
     } else if (!strcmp(op, "kbip") && n == 11) {
       mjData* d = SLOT(0);
       double v[10]; int okp = 1;
